@@ -1,5 +1,687 @@
-//! C14 harness (stub: not implemented yet).
+//! C14 — frame decoding is memory-bounded and chunking-independent.
+//!
+//! Runs the REAL `Deserializer<B, Frame<Message>>` (`radicle-node/src/deserializer.rs`, `wire/frame.rs`,
+//! `wire/varint.rs`) on byte streams split into chunks, draining `deserialize_next` after every chunk as
+//! `wire/protocol.rs` does.
+//!
+//! Case input (the same tokens the Lean driver reads): `<B> <stream hex> <cuts> <onion set> <flag>`
+//!   * `B`     — inbox bound (one of 64, 4096, 2097152 = `MAX_INBOX_SIZE`);
+//!   * `cuts`  — non-decreasing byte positions at which the stream is split into chunks (`-` = one chunk);
+//!   * `onion set` — raw Tor addresses of the stream accepted by the real `OnionAddrV3::from_raw_bytes`
+//!     (graph of the opaque function, recomputed and checked here);
+//!   * `flag`  — `v`: the stream was produced by the real encoder from frames (oracle: must round-trip).
+//! Output: `<groups> end=<more|err|full|panic:..> left=<n> a=<ok|over>`; `abort` if the process died.
+//!
+//! Every case runs in a persistent child process (`--worker`): an allocation failure aborts the process
+//! (it is not a panic), and must be an observed outcome rather than a dead harness. A counting global
+//! allocator records the largest single request made during each `deserialize_next`.
+
+#[path = "../../c15/src/wiregen.rs"]
+mod wiregen;
+
+use std::alloc::{GlobalAlloc, Layout, System};
+use std::cell::Cell;
+use std::io::{BufRead, BufReader, Write};
+use std::process::{Child, ChildStdin, ChildStdout, Command, Stdio};
+
+use radicle_node::deserializer::Deserializer;
+use radicle_node::service::message::Message;
+use radicle_node::wire;
+use radicle_node::wire::verif::{Control, Frame, FrameData, StreamId};
+use radicle_node::Link;
+use verif_common::*;
+
+// ---------------------------------------------------------------------------------------------------
+// counting allocator
+
+thread_local! {
+    static MEASURING: Cell<bool> = const { Cell::new(false) };
+    static MAX_REQ: Cell<usize> = const { Cell::new(0) };
+}
+
+/// Requests above this size are refused while measuring (the process then aborts through
+/// `handle_alloc_error`, deterministically, instead of depending on the overcommit policy of the OS).
+const REFUSE_ABOVE: usize = 1 << 31;
+
+fn note(size: usize) -> bool {
+    let measuring = MEASURING.try_with(|m| m.get()).unwrap_or(false);
+    if measuring {
+        let _ = MAX_REQ.try_with(|m| m.set(m.get().max(size)));
+        size <= REFUSE_ABOVE
+    } else {
+        true
+    }
+}
+
+struct Tracking;
+
+unsafe impl GlobalAlloc for Tracking {
+    unsafe fn alloc(&self, l: Layout) -> *mut u8 {
+        if note(l.size()) { System.alloc(l) } else { std::ptr::null_mut() }
+    }
+    unsafe fn alloc_zeroed(&self, l: Layout) -> *mut u8 {
+        if note(l.size()) { System.alloc_zeroed(l) } else { std::ptr::null_mut() }
+    }
+    unsafe fn realloc(&self, p: *mut u8, l: Layout, new_size: usize) -> *mut u8 {
+        if note(new_size) { System.realloc(p, l, new_size) } else { std::ptr::null_mut() }
+    }
+    unsafe fn dealloc(&self, p: *mut u8, l: Layout) {
+        System.dealloc(p, l)
+    }
+}
+
+#[global_allocator]
+static ALLOC: Tracking = Tracking;
+
+/// The bound of theorem `alloc_bounded`: `K + 2·received`, `K = 65536 + 32`.
+const K: usize = 65536 + 32;
+
+// ---------------------------------------------------------------------------------------------------
+// running one case on the real code
+
+struct Parsed {
+    b: usize,
+    stream: Vec<u8>,
+    cuts: Vec<usize>,
+    onions: String,
+    valid: bool,
+}
+
+fn parse(input: &str) -> Option<Parsed> {
+    let t: Vec<&str> = input.split(' ').collect();
+    if t.len() != 5 {
+        return None;
+    }
+    let b = t[0].parse().ok()?;
+    let stream = unhex(t[1])?;
+    let cuts: Vec<usize> =
+        if t[2] == "-" { vec![] } else { t[2].split(',').map(|x| x.parse().ok()).collect::<Option<_>>()? };
+    let mut pos = 0;
+    for c in &cuts {
+        if *c < pos || *c > stream.len() {
+            return None;
+        }
+        pos = *c;
+    }
+    let valid = match t[4] {
+        "v" => true,
+        "-" => false,
+        _ => return None,
+    };
+    Some(Parsed { b, stream, cuts, onions: t[3].to_string(), valid })
+}
+
+fn chunks<'a>(stream: &'a [u8], cuts: &[usize]) -> Vec<&'a [u8]> {
+    let mut out = vec![];
+    let mut pos = 0;
+    for c in cuts {
+        out.push(&stream[pos..*c]);
+        pos = *c;
+    }
+    out.push(&stream[pos..]);
+    out
+}
+
+fn show_frame(f: &Frame<Message>) -> String {
+    let sid = u64::from(f.stream);
+    match &f.data {
+        FrameData::Control(Control::Open { stream }) => format!("c{sid}:o{}", u64::from(*stream)),
+        FrameData::Control(Control::Close { stream }) => format!("c{sid}:x{}", u64::from(*stream)),
+        FrameData::Control(Control::Eof { stream }) => format!("c{sid}:e{}", u64::from(*stream)),
+        FrameData::Git(data) => format!("t{sid}:{}", wiregen::short(data)),
+        FrameData::Gossip(msg) => match catch(|| wire::serialize(msg)) {
+            Ok(b) => format!("g{sid}:{}", wiregen::short(&b)),
+            Err(_) => format!("g{sid}:!"),
+        },
+    }
+}
+
+struct Fed {
+    groups: Vec<Vec<Frame<Message>>>,
+    end: String,
+    left: usize,
+    /// largest single allocation request over all `deserialize_next` calls, and the bytes received by then
+    worst: Option<(usize, usize)>,
+    reencoded: Vec<u8>,
+}
+
+/// Feed the chunks to a real `Deserializer<B, Frame>`, draining after each.
+fn feed<const B: usize>(chunks: &[&[u8]]) -> Fed {
+    let mut de = Deserializer::<B, Frame<Message>>::new(1024.min(B));
+    let mut groups = vec![];
+    let mut end = "more".to_string();
+    let mut received = 0usize;
+    let mut worst: Option<(usize, usize)> = None;
+    'outer: for c in chunks {
+        if de.input(c).is_err() {
+            end = "full".into();
+            break;
+        }
+        received += c.len();
+        let mut group = vec![];
+        loop {
+            MAX_REQ.with(|m| m.set(0));
+            MEASURING.with(|m| m.set(true));
+            let r = catch(|| de.deserialize_next());
+            MEASURING.with(|m| m.set(false));
+            let req = MAX_REQ.with(|m| m.get());
+            if req > K + 2 * received && worst.map(|(w, _)| req > w).unwrap_or(true) {
+                worst = Some((req, received));
+            }
+            match r {
+                Ok(Ok(Some(frame))) => group.push(frame),
+                Ok(Ok(None)) => break,
+                Ok(Err(_)) => {
+                    end = "err".into();
+                    groups.push(group);
+                    break 'outer;
+                }
+                Err(msg) => {
+                    end = format!("panic:{}", msg.replace(' ', "_"));
+                    groups.push(group);
+                    break 'outer;
+                }
+            }
+        }
+        groups.push(group);
+    }
+    let mut reencoded = vec![];
+    for f in groups.iter().flatten() {
+        match catch(|| f.to_bytes()) {
+            Ok(b) => reencoded.extend_from_slice(&b),
+            Err(_) => reencoded.push(0xff),
+        }
+    }
+    Fed { groups, end, left: de.len(), worst, reencoded }
+}
+
+fn feed_b(b: usize, chunks: &[&[u8]]) -> Option<Fed> {
+    match b {
+        64 => Some(feed::<64>(chunks)),
+        4096 => Some(feed::<4096>(chunks)),
+        2097152 => Some(feed::<2097152>(chunks)),
+        _ => None,
+    }
+}
+
+/// Independent, minimal envelope parser for the oracle "a complete frame is never reported incomplete":
+/// does `buf` start with a complete frame envelope (version, stream id, then either a control message or
+/// a payload whose declared length is satisfied)?
+fn envelope_complete(buf: &[u8]) -> bool {
+    fn varint(b: &[u8]) -> Option<(u64, usize)> {
+        let first = *b.first()?;
+        let n = 1usize << (first >> 6);
+        if b.len() < n {
+            return None;
+        }
+        let mut v = (first & 0x3f) as u64;
+        for x in &b[1..n] {
+            v = (v << 8) | *x as u64;
+        }
+        Some((v, n))
+    }
+    if buf.len() < 4 || buf[..4] != [b'r', b'a', b'd', 1] {
+        return false;
+    }
+    let Some((sid, n)) = varint(&buf[4..]) else { return false };
+    let rest = &buf[4 + n..];
+    match (sid >> 1) & 3 {
+        0 => match rest.first() {
+            Some(0..=2) => varint(&rest[1..]).is_some(),
+            _ => false,
+        },
+        1 | 2 => match varint(rest) {
+            Some((len, m)) => (rest.len() - m) as u64 >= len,
+            None => false,
+        },
+        _ => false,
+    }
+}
+
+fn run_case_inproc(input: &str) -> Outcome {
+    let Some(p) = parse(input) else { return Outcome::new("bad-case").trivial() };
+    if wiregen::onion_token(&p.stream) != p.onions {
+        return Outcome::new("bad-case").trivial();
+    }
+    let cs = chunks(&p.stream, &p.cuts);
+    let Some(fed) = feed_b(p.b, &cs) else { return Outcome::new("bad-case").trivial() };
+
+    let groups: Vec<String> = fed
+        .groups
+        .iter()
+        .map(|g| if g.is_empty() { "-".to_string() } else { g.iter().map(show_frame).collect::<Vec<_>>().join(";") })
+        .collect();
+    let gs = if groups.is_empty() { "-".to_string() } else { groups.join("|") };
+    let a = if fed.worst.is_some() { "over" } else { "ok" };
+    let mut o = Outcome::new(format!("{gs} end={} left={} a={a}", fed.end, fed.left));
+
+    // ---- oracle: the property statement on what the real code did ----
+    if let Some((req, received)) = fed.worst {
+        o = o.violation(
+            "alloc-exceeds-received",
+            format!("a single deserialize_next requested {req} bytes after only {received} bytes were received (bound {K} + 2*received)"),
+        );
+    }
+    let n_frames: usize = fed.groups.iter().map(|g| g.len()).sum();
+    let flat: Vec<String> = fed.groups.iter().flatten().map(show_frame).collect();
+    if !p.cuts.is_empty() && fed.end != "full" {
+        // chunking independence: the same stream fed at once
+        if let Some(whole) = feed_b(p.b, &[&p.stream[..]]) {
+            if whole.end != "full" {
+                let wflat: Vec<String> = whole.groups.iter().flatten().map(show_frame).collect();
+                let same_end = whole.end == fed.end && (fed.end != "more" || whole.left == fed.left);
+                if wflat != flat || !same_end {
+                    o = o.violation(
+                        "chunking-dependent",
+                        format!(
+                            "fed at once: {} frames end={} left={}; fed in {} chunks: {} frames end={} left={}",
+                            wflat.len(), whole.end, whole.left, cs.len(), flat.len(), fed.end, fed.left
+                        ),
+                    );
+                }
+            }
+        }
+    }
+    if p.valid && p.stream.len() <= p.b {
+        if fed.end != "more" || fed.left != 0 || fed.reencoded != p.stream {
+            o = o.violation(
+                "valid-stream-not-reproduced",
+                format!("encoder-produced stream gave {n_frames} frames end={} left={} (re-encoding equal: {})",
+                    fed.end, fed.left, fed.reencoded == p.stream),
+            );
+        }
+    }
+    if fed.end == "more" && fed.left > 0 {
+        let leftover = &p.stream[p.stream.len() - fed.left..];
+        if envelope_complete(leftover) {
+            o = o.violation(
+                "complete-frame-reported-incomplete",
+                format!("{} unparsed bytes start with a complete frame envelope, but deserialize_next returned None", fed.left),
+            );
+        }
+    }
+
+    // ---- distribution ----
+    o = o.tag(format!("end-{}", fed.end.split(':').next().unwrap()));
+    o = o.tag(match n_frames { 0 => "frames-0", 1 => "frames-1", 2..=4 => "frames-2-4", _ => "frames-5+" });
+    for f in fed.groups.iter().flatten() {
+        o = o.tag(match &f.data {
+            FrameData::Control(_) => "frame-control".to_string(),
+            FrameData::Git(_) => "frame-git".to_string(),
+            FrameData::Gossip(m) => format!("frame-gossip-{}", wiregen::kind_name(m)),
+        });
+    }
+    o = o.tag(match cs.len() { 1 => "chunks-1", 2 => "chunks-2", 3..=8 => "chunks-3-8", _ => "chunks-9+" });
+    if fed.end == "more" && fed.left > 0 {
+        o = o.tag("left-incomplete-tail");
+    }
+    o.tags.sort();
+    o.tags.dedup();
+    o.nontrivial = n_frames > 0 || fed.end != "more" || fed.left > 0;
+    o
+}
+
+// ---------------------------------------------------------------------------------------------------
+// child worker
+
+fn worker() {
+    let stdin = std::io::stdin();
+    let mut out = std::io::stdout();
+    for line in stdin.lock().lines() {
+        let Ok(line) = line else { break };
+        let o = run_case_inproc(&line);
+        let viol: Vec<String> = o.violations.iter().map(|(c, m)| format!("{c}\x1f{}", m.replace(['\t', '\n'], " "))).collect();
+        writeln!(out, "{}\t{}\t{}\t{}", o.output, o.nontrivial as u8, o.tags.join(","), viol.join("\x1e")).unwrap();
+        out.flush().unwrap();
+    }
+}
+
+struct Worker {
+    child: Child,
+    stdin: ChildStdin,
+    stdout: BufReader<ChildStdout>,
+}
+
+impl Worker {
+    fn spawn() -> Worker {
+        let exe = std::env::current_exe().expect("current_exe");
+        let mut child = Command::new(exe)
+            .arg("--worker")
+            .stdin(Stdio::piped())
+            .stdout(Stdio::piped())
+            .stderr(Stdio::null())
+            .spawn()
+            .expect("spawn worker");
+        let stdin = child.stdin.take().unwrap();
+        let stdout = BufReader::new(child.stdout.take().unwrap());
+        Worker { child, stdin, stdout }
+    }
+}
+
+struct Pool {
+    w: Option<Worker>,
+}
+
+impl Pool {
+    fn run(&mut self, input: &str) -> Outcome {
+        if self.w.is_none() {
+            self.w = Some(Worker::spawn());
+        }
+        let w = self.w.as_mut().unwrap();
+        let sent = writeln!(w.stdin, "{input}").and_then(|_| w.stdin.flush());
+        let mut line = String::new();
+        let got = if sent.is_ok() { w.stdout.read_line(&mut line).unwrap_or(0) } else { 0 };
+        if got == 0 || !line.ends_with('\n') {
+            // the worker died while running the case
+            let mut w = self.w.take().unwrap();
+            let status = w.child.wait().map(|s| format!("{s}")).unwrap_or_else(|_| "?".into());
+            return Outcome::new("abort")
+                .tag("process-abort")
+                .violation("decoder-abort", format!("the process died while decoding ({status}): allocation failure / abort"));
+        }
+        let f: Vec<&str> = line.trim_end_matches('\n').split('\t').collect();
+        let mut o = Outcome::new(f[0]);
+        o.nontrivial = f.get(1) == Some(&"1");
+        if let Some(t) = f.get(2) {
+            o.tags = t.split(',').filter(|x| !x.is_empty()).map(|x| x.to_string()).collect();
+        }
+        if let Some(v) = f.get(3) {
+            for item in v.split('\x1e').filter(|x| !x.is_empty()) {
+                let mut it = item.splitn(2, '\x1f');
+                let c = it.next().unwrap_or("").to_string();
+                let m = it.next().unwrap_or("").to_string();
+                o.violations.push((c, m));
+            }
+        }
+        o
+    }
+}
+
+// ---------------------------------------------------------------------------------------------------
+// generation
+
+const BIG_B: usize = 2097152;
+
+fn varint_bytes(v: u64, width: usize) -> Vec<u8> {
+    // explicit width (possibly non-minimal): tag in the two top bits
+    let tag = match width { 1 => 0u8, 2 => 1, 4 => 2, _ => 3 };
+    let mut b: Vec<u8> = (0..width).rev().map(|i| (v >> (8 * i)) as u8).collect();
+    b[0] = (b[0] & 0x3f) | (tag << 6);
+    b
+}
+
+fn min_width(v: u64) -> usize {
+    if v < 1 << 6 { 1 } else if v < 1 << 14 { 2 } else if v < 1 << 30 { 4 } else { 8 }
+}
+
+fn header(sid: u64) -> Vec<u8> {
+    let mut b = vec![b'r', b'a', b'd', 1];
+    b.extend(varint_bytes(sid, min_width(sid)));
+    b
+}
+
+fn stream_id(rng: &mut Rng, kind: u64) -> StreamId {
+    let link = if rng.bool() { Link::Inbound } else { Link::Outbound };
+    let base = match kind {
+        0 => StreamId::control(link),
+        1 => StreamId::gossip(link),
+        _ => StreamId::git(link),
+    };
+    let n = match rng.below(6) {
+        0 => 0,
+        1 => 7,                         // 1-byte / 2-byte varint boundary for the id
+        2 => 8,
+        3 => 2047,
+        4 => rng.below(1 << 27),
+        _ => (1u64 << 59) - 1,          // largest id: 2^62 - 8 + kind bits
+    };
+    base.nth(n).expect("below 2^62")
+}
+
+fn gen_frame(rng: &mut Rng, big: bool) -> Frame<Message> {
+    match rng.below(10) {
+        0..=2 => {
+            let link = if rng.bool() { Link::Inbound } else { Link::Outbound };
+            let s = stream_id(rng, 2);
+            let ctrl = match rng.below(3) {
+                0 => Control::Open { stream: s },
+                1 => Control::Close { stream: s },
+                _ => Control::Eof { stream: s },
+            };
+            Frame::control(link, ctrl)
+        }
+        3..=5 => {
+            let n = match rng.below(8) {
+                0 => 0,
+                1 => 63,
+                2 => 64,
+                3 if big => 16383,
+                4 if big => 16384,
+                5 if big => 70000,
+                _ => rng.below(40) as usize,
+            };
+            let data = rng.bytes(n);
+            Frame::git(stream_id(rng, 2), data)
+        }
+        _ => {
+            let link = if rng.bool() { Link::Inbound } else { Link::Outbound };
+            let m = wiregen::message(rng, big);
+            Frame::gossip(link, m)
+        }
+    }
+}
+
+fn random_cuts(rng: &mut Rng, len: usize) -> Vec<usize> {
+    let mut cuts: Vec<usize> = match rng.below(6) {
+        0 => vec![],
+        1 => vec![rng.below(len as u64 + 1) as usize],
+        2 if len <= 300 => (1..len).collect(),                  // one byte at a time
+        3 => {
+            let step = rng.range(1, 97) as usize;
+            (1..).map(|i| i * step).take_while(|c| *c < len).collect()
+        }
+        _ => (0..rng.range(2, 8)).map(|_| rng.below(len as u64 + 1) as usize).collect(),
+    };
+    cuts.sort();
+    if cuts.len() > 400 {
+        cuts.truncate(400);
+    }
+    cuts
+}
+
+fn case_text(b: usize, stream: &[u8], cuts: &[usize], valid: bool) -> String {
+    let cuts_s = if cuts.is_empty() { "-".to_string() } else { cuts.iter().map(|c| c.to_string()).collect::<Vec<_>>().join(",") };
+    format!("{b} {} {cuts_s} {} {}", hex(stream), wiregen::onion_token(stream), if valid { "v" } else { "-" })
+}
+
+fn gen_case(rng: &mut Rng) -> (String, &'static str) {
+    let big = rng.chance(1, 12);
+    let n = rng.range(1, 4);
+    let frames: Vec<Frame<Message>> = (0..n).map(|_| gen_frame(rng, big)).collect();
+    let valid_stream: Vec<u8> = frames.iter().flat_map(|f| f.to_bytes()).collect();
+    match rng.below(20) {
+        // valid sequences, arbitrary chunking
+        0..=6 => {
+            let cuts = random_cuts(rng, valid_stream.len());
+            (case_text(BIG_B, &valid_stream, &cuts, true), "gen-valid")
+        }
+        // truncated tail
+        7..=8 => {
+            let cut = rng.below(valid_stream.len() as u64) as usize;
+            let s = &valid_stream[..cut];
+            let cuts = random_cuts(rng, s.len());
+            (case_text(BIG_B, s, &cuts, false), "gen-truncated")
+        }
+        // huge / boundary declared lengths with few bytes behind them
+        9..=10 => {
+            let kind = if rng.bool() { 1 } else { 2 };
+            let mut s = header(u64::from(stream_id(rng, kind)));
+            let declared = *rng.pick(&[
+                0u64, 1, 63, 64, 16383, 16384, (1 << 30) - 1, 1 << 30, (1 << 31) + 5, 1 << 40, (1 << 62) - 1,
+            ]);
+            let width = *rng.pick(&[min_width(declared), 8]);
+            s.extend(varint_bytes(declared, width));
+            let have = rng.below(80) as usize;
+            s.extend(rng.bytes(have));
+            let cuts = random_cuts(rng, s.len());
+            (case_text(BIG_B, &s, &cuts, false), "gen-declared-length")
+        }
+        // complete gossip frame with a truncated (or over-long) inner message, valid frames behind it
+        11..=13 => {
+            let m = wiregen::message(rng, false);
+            let payload = wire::serialize(&m);
+            let mut inner = payload.clone();
+            let tag;
+            if rng.chance(2, 3) {
+                inner.truncate(rng.below(payload.len() as u64) as usize);
+                tag = "gen-inner-truncated";
+            } else {
+                let extra = rng.range(1, 9) as usize;
+                inner.extend(rng.bytes(extra));
+                tag = "gen-inner-overlong";
+            }
+            let mut s = header(u64::from(stream_id(rng, 1)));
+            s.extend(varint_bytes(inner.len() as u64, min_width(inner.len() as u64)));
+            s.extend(&inner);
+            s.extend(&valid_stream);
+            let cuts = random_cuts(rng, s.len());
+            (case_text(BIG_B, &s, &cuts, false), tag)
+        }
+        // byte mutations of a valid stream
+        14..=16 => {
+            let mut s = valid_stream.clone();
+            for _ in 0..rng.range(1, 3) {
+                let i = rng.below(s.len() as u64) as usize;
+                match rng.below(3) {
+                    0 => s[i] ^= 1 << rng.below(8),
+                    1 => s[i] = rng.next() as u8,
+                    _ => { s.insert(i, rng.next() as u8); }
+                }
+            }
+            let cuts = random_cuts(rng, s.len());
+            (case_text(BIG_B, &s, &cuts, false), "gen-mutated")
+        }
+        // malformed headers: version, stream kind 3, unknown control command, non-minimal varints
+        17..=18 => {
+            let mut s = vec![];
+            match rng.below(4) {
+                0 => { s.extend([b'r', b'a', b'd', rng.below(4) as u8]); s.extend(varint_bytes(2, 1)); s.push(0); }
+                1 => { s.extend(header(6 + 8 * rng.below(100))); s.extend(rng.bytes(3)); }
+                2 => { s.extend(header(rng.below(2))); s.push(rng.range(3, 255) as u8); s.extend(rng.bytes(2)); }
+                _ => {
+                    // non-minimal stream id and length
+                    s.extend([b'r', b'a', b'd', 1]);
+                    s.extend(varint_bytes(4 + rng.below(2), *rng.pick(&[2, 4, 8])));
+                    let dn = rng.below(10) as usize;
+                    let data = rng.bytes(dn);
+                    s.extend(varint_bytes(data.len() as u64, *rng.pick(&[2, 4, 8])));
+                    s.extend(&data);
+                }
+            }
+            s.extend(&valid_stream);
+            let cuts = random_cuts(rng, s.len());
+            (case_text(BIG_B, &s, &cuts, false), "gen-malformed-header")
+        }
+        // small inbox
+        _ => {
+            let b = *rng.pick(&[64usize, 4096]);
+            let cuts = random_cuts(rng, valid_stream.len());
+            let fits = valid_stream.len() <= b;
+            (case_text(b, &valid_stream, &cuts, fits), "gen-small-inbox")
+        }
+    }
+}
+
+/// Fixed small frame sequences for the exhaustive split enumeration.
+fn fixed_sequences() -> Vec<Vec<u8>> {
+    let mut rng = Rng::new(0xC14);
+    let ping = |z: u16| Message::Ping(radicle_node::service::message::Ping {
+        ponglen: 7,
+        zeroes: radicle_node::service::message::ZeroBytes::new(z),
+    });
+    let g = StreamId::git(Link::Outbound);
+    let seqs: Vec<Vec<Frame<Message>>> = vec![
+        vec![Frame::control(Link::Outbound, Control::Open { stream: g })],
+        vec![Frame::git(g, vec![1, 2, 3]), Frame::control(Link::Inbound, Control::Eof { stream: g })],
+        vec![
+            Frame::control(Link::Outbound, Control::Open { stream: g.nth(70000).unwrap() }),
+            Frame::gossip(Link::Inbound, ping(3)),
+            Frame::git(g, vec![]),
+            Frame::control(Link::Outbound, Control::Close { stream: g }),
+        ],
+        vec![Frame::gossip(Link::Outbound, wiregen::message_of_kind(&mut rng, 4, false)), Frame::git(g, vec![0xab; 70])],
+        vec![Frame::gossip(Link::Inbound, wiregen::message_of_kind(&mut rng, 1, false))],
+    ];
+    seqs.iter().map(|fs| fs.iter().flat_map(|f| f.to_bytes()).collect()).collect()
+}
+
 fn main() {
-    eprintln!("C14: harness not implemented");
-    std::process::exit(3);
+    if std::env::args().any(|a| a == "--worker") {
+        worker();
+        return;
+    }
+    let mut ctx = Ctx::from_args("C14");
+    let mut pool = Pool { w: None };
+    let mut exhaustive_splits = 0u64;
+    if !ctx.run_fixed(|i| pool.run(i)) {
+        // every split point of fixed sequences (two chunks), and every pair for the shortest ones
+        for (k, s) in fixed_sequences().iter().enumerate() {
+            for c in 0..=s.len() {
+                let input = case_text(BIG_B, s, &[c], true);
+                let o = pool.run(&input);
+                ctx.count("gen-exhaustive-split");
+                exhaustive_splits += 1;
+                ctx.record(&input, o);
+            }
+            if s.len() <= 40 || (!ctx.quick() && k < 4) {
+                for c1 in 0..=s.len() {
+                    for c2 in c1..=s.len() {
+                        let input = case_text(BIG_B, s, &[c1, c2], true);
+                        let o = pool.run(&input);
+                        ctx.count("gen-exhaustive-split2");
+                        exhaustive_splits += 1;
+                        ctx.record(&input, o);
+                    }
+                }
+            }
+        }
+        // every varint width and boundary value as a declared length, with 0..=2 bytes behind it
+        for kind in [1u64, 2] {
+            for declared in [0u64, 1, 63, 64, 16383, 16384, (1 << 30) - 1, 1 << 30, (1 << 32) + 1, (1 << 62) - 1] {
+                for width in [1usize, 2, 4, 8] {
+                    if width < min_width(declared) {
+                        continue;
+                    }
+                    for have in 0..3usize {
+                        let mut s = header(if kind == 1 { 3 } else { 5 });
+                        s.extend(varint_bytes(declared, width));
+                        s.extend(std::iter::repeat(0xaa).take(have));
+                        let input = case_text(BIG_B, &s, &[], false);
+                        let o = pool.run(&input);
+                        ctx.count("gen-exhaustive-declared");
+                        ctx.record(&input, o);
+                    }
+                }
+            }
+        }
+        let mut rng = ctx.rng();
+        for _ in 0..ctx.size(4_000, 150_000) {
+            let (input, tag) = gen_case(&mut rng);
+            let o = pool.run(&input);
+            ctx.count(tag);
+            ctx.record(&input, o);
+        }
+    }
+    ctx.note("exhaustive_split_cases", exhaustive_splits);
+    ctx.note("alloc_bound", format!("largest single request during each deserialize_next <= {K} + 2*received"));
+    ctx.finish(
+        "byte streams fed to the real Deserializer<B, Frame<Message>> in chunks: (1) every split point (and every pair of \
+         split points of the short ones) of fixed frame sequences of 1-4 frames; (2) every varint width x boundary value \
+         as declared payload length with 0-2 bytes present; (3) random sequences of 1-4 control/git/gossip frames built \
+         from the repo's types (stream ids and payload sizes at the varint boundaries, messages of every type), fed whole, \
+         byte-by-byte, in fixed steps or at random cuts; truncated; with a complete envelope around a truncated or \
+         over-long message followed by valid frames; byte-mutated; malformed headers; small inboxes. \
+         non-trivial = at least one frame decoded, or an error, or an incomplete tail left; distinct by input text",
+        false,
+    );
 }
